@@ -55,6 +55,8 @@ func (o concOp) model(cf ccfg) string {
 }
 
 type concRun struct {
+	picks []int
+	starved string
 	events  []string   // tid:kind:conn:hex in order
 	rets    [][]string // per worker
 	widths  []int
@@ -244,6 +246,7 @@ func runConcMode(cf ccfg, prefix []concOp, progs [][]concOp, choices []int, time
 	s.Release()
 	res.panics = s.Panics
 	res.strace = s.Trace
+	res.picks, res.starved = picksOf(s), s.Starve
 	return res
 }
 
@@ -322,12 +325,15 @@ func concExplore(c *core.Ctx, sig string, cf ccfg, prefix []concOp, progs [][]co
 	n, exhaustive = explore(c, max, func(choices []int) []int {
 		c.InFlight(map[string]interface{}{"cfg": cf.model(), "prefix": prefixModel, "programs": renderProgs(cf, progs), "choices": fmt.Sprint(choices), "note": note})
 		run := runConc(cf, prefix, progs, choices, 300*time.Millisecond)
-		choices = effective(choices, run.widths)
+		choices = effective(choices, run.picks)
 		c.Eval()
 		tr := strings.Join(run.events, ";")
 		distinct[tr] = true
 		replay := map[string]interface{}{"cfg": cf.model(), "prefix": prefixModel, "programs": renderProgs(cf, progs), "choices": fmt.Sprint(choices),
 			"schedule": trunc(sched.RenderTrace(run.strace), 600), "events": trunc(tr, 600), "results": renderRets(run.rets), "note": note}
+		if run.starved != "" {
+			replay["starved"] = run.starved + " is not resumed while parked at an I/O event (stalled underlying call), for up to 3 close deadlines"
+		}
 		for name, p := range run.panics {
 			c.Violation("panic", sig+"-panic", fmt.Sprintf("worker %s panicked: %v (%s)", name, p, note), replay)
 		}
